@@ -436,3 +436,37 @@ TWINS += [
 MUTANTS += [
     {"name": "shape:partial-build-iter-callable-sentinel-skips-first", "expect": "R4.7", "edits": _partial_sentinel("        next(pending, None)\n")},
 ]
+
+# ---- round 4: options of a rule wrapped in a factory (R4.7 / R4.4), a match leaves the rules alone (R4.8), single
+# length options of the string converter (R4.2)
+_EMPTY = "        return type(self)(self.rule, **self.get_empty_kwargs())"
+_EP_WRAP = "                rule = rule.empty()\n                rule.endpoint = self.prefix + rule.endpoint"
+_SM_WRAP = "                rule = rule.empty()\n                rule.rule = self.path + rule.rule"
+_SD_WRAP = "                rule = rule.empty()\n                rule.subdomain = self.subdomain"
+_RESULT_INIT = "            result = {}\n            for name, value in zip(rule._converters.keys(), values):"
+MUTANTS += [
+    {"name": "factory:empty-kwargs-drop-host", "expect": "R4.7", "edits": [(R, "            host=self.host,\n", "")]},
+    {"name": "factory:empty-kwargs-host-replaced-by-other-options", "expect": "R4.4", "edits": [(R, "            host=self.host,\n", "            merge_slashes=self.merge_slashes,\n            websocket=self.websocket,\n")]},
+    {"name": "factory:empty-kwargs-drop-subdomain", "expect": "R4.7", "edits": [(R, "            subdomain=self.subdomain,\n", "")]},
+    {"name": "factory:empty-kwargs-drop-alias", "expect": "R4.7", "edits": [(R, "            alias=self.alias,\n", "")]},
+    {"name": "factory:empty-filters-host-out", "expect": "R4.7", "edits": [(R, _EMPTY, "        kept = {k: v for k, v in self.get_empty_kwargs().items() if k not in (\"host\", \"websocket\")}\n        return type(self)(self.rule, **kept)")]},
+    {"name": "factory:endpoint-prefix-builds-a-new-rule-without-host", "expect": "R4.7", "edits": [(R, _EP_WRAP, "                rule = Rule(rule.rule, defaults=rule.defaults, subdomain=rule.subdomain, methods=rule.methods, endpoint=self.prefix + rule.endpoint, alias=rule.alias)")]},
+    {"name": "factory:submount-resets-host-of-the-copy", "expect": "R4.7", "edits": [(R, _SM_WRAP, "                rule = rule.empty()\n                rule.rule = self.path + rule.rule\n                rule.host = None")]},
+    {"name": "factory:subdomain-factory-writes-host-too", "expect": "R4.7", "edits": [(R, _SD_WRAP, "                rule = rule.empty()\n                rule.subdomain = rule.host = self.subdomain")]},
+    {"name": "history:result-aliases-rule-defaults", "expect": "R4.8", "edits": [(T, _RESULT_INIT, "            result = rule.defaults if rule.defaults is not None else {}\n            for name, value in zip(rule._converters.keys(), values):"), (T, _MERGE_DEFAULTS, "")]},
+    {"name": "history:converted-values-merged-into-rule-defaults", "expect": "R4.8", "edits": [(T, _MERGE_DEFAULTS, "            if rule.defaults:\n                rule.defaults.update(result)\n                result = rule.defaults")]},
+    {"name": "history:last-result-kept-as-rule-defaults", "expect": "R4.8", "edits": [(T, _MERGE_DEFAULTS, "            if rule.defaults:\n                result.update(rule.defaults)\n                rule.defaults = result")]},
+    {"name": "history:adapter-merges-defaults-in-place", "expect": "R4.8", "edits": [(T, _MERGE_DEFAULTS, ""), (M, "            rule, rv = result\n", "            rule, rv = result\n            if rule.defaults:\n                rule.defaults.update(rv)\n                rv = rule.defaults\n")]},
+    {"name": "string:minlength-ignored-without-maxlength", "expect": "R4.2", "edits": [(C, _UNICODE_INIT, "        if length is not None:\n            length_regex = f\"{{{int(length)}}}\"\n        elif maxlength is not None:\n            length_regex = f\"{{{int(minlength)},{int(maxlength)}}}\"\n        else:\n            length_regex = f\"{{1,{int(minlength)}}}\"\n        self.regex = f\"[^/]{length_regex}\"\n")]},
+    {"name": "string:maxlength-alone-becomes-exact-length", "expect": "R4.2", "edits": [(C, _UNICODE_INIT, "        if length is None and maxlength is not None and minlength == 1:\n            length = maxlength\n        if length is not None:\n            length_regex = f\"{{{int(length)}}}\"\n        else:\n            if maxlength is None:\n                maxlength_value = \"\"\n            else:\n                maxlength_value = str(int(maxlength))\n            length_regex = f\"{{{int(minlength)},{maxlength_value}}}\"\n        self.regex = f\"[^/]{length_regex}\"\n")]},
+]
+TWINS += [
+    {"name": "factory:empty-kwargs-as-dict-literal-with-more-options", "edits": [(R, "            host=self.host,\n", "            host=self.host,\n            merge_slashes=self.merge_slashes,\n            websocket=self.websocket,\n")]},
+    {"name": "factory:empty-through-local-kwargs", "edits": [(R, _EMPTY, "        options = dict(self.get_empty_kwargs())\n        cls = type(self)\n        return cls(self.rule, **options)")]},
+    {"name": "factory:endpoint-prefix-sets-endpoint-through-local", "edits": [(R, _EP_WRAP, "                copy = rule.empty()\n                copy.endpoint = f\"{self.prefix}{copy.endpoint}\"\n                rule = copy")]},
+    {"name": "factory:submount-helper-for-the-copy", "edits": [(R, _SM_WRAP, "                rule = self._mounted(rule)"), (R, "    def get_rules(self, map: Map) -> t.Iterator[Rule]:\n        for rulefactory in self.rules:\n            for rule in rulefactory.get_rules(map):\n                rule = self._mounted(rule)", "    def _mounted(self, rule: Rule) -> Rule:\n        copy = rule.empty()\n        copy.rule = self.path + copy.rule\n        return copy\n\n    def get_rules(self, map: Map) -> t.Iterator[Rule]:\n        for rulefactory in self.rules:\n            for rule in rulefactory.get_rules(map):\n                rule = self._mounted(rule)")]},
+    {"name": "history:result-built-by-dict-merge", "edits": [(T, _MERGE_DEFAULTS, "            if rule.defaults:\n                result = {**result, **rule.defaults}")]},
+    {"name": "history:result-starts-as-dict-call-and-union-update", "edits": [(T, _RESULT_INIT, "            result = dict()\n            for name, value in zip(rule._converters.keys(), values):"), (T, _MERGE_DEFAULTS, "            if rule.defaults:\n                result |= rule.defaults")]},
+    {"name": "history:defaults-copied-item-by-item", "edits": [(T, _MERGE_DEFAULTS, "            for key, default in (rule.defaults or {}).items():\n                result[key] = default")]},
+    {"name": "string:quantifier-chosen-by-early-branches", "edits": [(C, _UNICODE_INIT, "        if length is not None:\n            length_regex = f\"{{{int(length)}}}\"\n        elif maxlength is not None:\n            length_regex = f\"{{{int(minlength)},{int(maxlength)}}}\"\n        else:\n            length_regex = f\"{{{int(minlength)},}}\"\n        self.regex = f\"[^/]{length_regex}\"\n")]},
+]
